@@ -862,7 +862,11 @@ def _instantiate(fragment: str) -> str:
         for lit, fname, spec, conv in string.Formatter().parse(fragment):
             out.append(lit)
             if fname is not None:
-                out.append("x")
+                if spec and (len(spec) > 8 or any(ch in spec for ch in " ()[]:=")):
+                    # not a format spec: generated dict / set syntax (`{f: expr for f in ...}`), kept as the code it is
+                    out.append("{" + fname + ("!" + conv if conv else "") + ":" + spec + "}")
+                else:
+                    out.append("x")
     except ValueError:
         # not a format template (a lone brace of generated dict syntax)
         return fragment.replace("\t", "    ")
